@@ -1,10 +1,16 @@
-(* C25, last sentence only: "On any connection, no more than MaxConcurrentStreams handlers
+(* C25: server stop semantics and the per-connection handler limit.
+   Part D of ServerStop.v (theorems C25_graceful_waits ... C25_stop_cancels below): server.go
+   stop(graceful) as a thread of atomic steps per call (quit + close listeners; first GOAWAY or
+   close of the transport; wait for conns to be empty; handlersWG.Wait), one connection
+   (serving -> first GOAWAY -> second GOAWAY, refusing -> closed), RPC arrival / handler
+   return / delivery of the handler's status; [greach] = all interleavings, any number of
+   RPCs and of concurrent Stop / GracefulStop calls.  [P4 g] = a stop(g) call has returned.
+   Last sentence: "On any connection, no more than MaxConcurrentStreams handlers
    run at once" - the atomicSemaphore of server.go (newHandlerQuota in serveStreams).
    Model ServerStop.v: acquire = n.Add(-1) then (if negative) a receive on the 1-slot
    channel; release = n.Add(1) then (if <= 0) a send; one synchronous acquirer, any number of
    handler goroutines; [reachable] = all interleavings.  [holders] = running handlers plus
    the stream whose acquire has returned and whose handler is being started.
-   NOT covered: Stop / GracefulStop semantics (first two sentences of C25).
    Theorems only; each is closed by [exact] of a lemma from proof/ServerStop_proofs.v. *)
 From Coq Require Import List ZArith Bool.
 From VLib Require Import Codec Machine.
@@ -30,14 +36,63 @@ Proof. exact blocked_acquirer. Qed.
 Print Assumptions C25_semaphore_blocked_acquirer.
 
 (* the predicate evaluated on implementation traces holds on every trace of the sequential model *)
-Theorem C25_holds_on_every_model_trace : forall cfg ops obs,
-  run cfg ops = Some obs -> holds_b cfg ops obs = true.
-Proof. exact model_trace_holds. Qed.
+Theorem C25_holds_on_every_model_trace : forall c ops obs,
+  run [0; c] ops = Some obs -> holds_b [0; c] ops obs = true.
+Proof. exact sem_trace_holds. Qed.
 Print Assumptions C25_holds_on_every_model_trace.
+
+(* "GracefulStop returns only after every in-flight handler has returned" *)
+Theorem C25_graceful_waits : forall s, greach s -> In (P4 true) (stops s) ->
+  cn s = CClosed /\ no_running (rs s).
+Proof. exact graceful_waits. Qed.
+Print Assumptions C25_graceful_waits.
+
+(* "every RPC accepted ... completes with the handler's status": when a GracefulStop has
+   returned and no Stop closed the transport, every RPC whose handler was started has
+   returned a status, exactly that status reached the client, and its context was never
+   cancelled by the server.  (Covers RPCs accepted before the call and those accepted in the
+   window before the second GOAWAY.) *)
+Theorem C25_accepted_complete_with_handler_status : forall s, greach s -> hardc s = false ->
+  In (P4 true) (stops s) -> forall r, In r (rs s) -> hs r <> HNone ->
+  exists st, hs r = HRet st /\ clst r = CHandler st /\ cxl r = false.
+Proof. exact accepted_complete. Qed.
+Print Assumptions C25_accepted_complete_with_handler_status.
+
+(* "no RPC is accepted afterwards": an RPC arriving once the transport refuses (second GOAWAY
+   written, or closed) never gets a handler; after any Stop / GracefulStop call has returned
+   the transport is closed, so every later arrival is refused.  (Between the call and the
+   second GOAWAY the server still accepts streams by design - they are waited for, see above.) *)
+Theorem C25_no_accept_after : forall s, greach s ->
+  (forall r, In r (rs s) -> late r = true -> hs r = HNone) /\
+  (forall g, In (P4 g) (stops s) -> cn s = CClosed) /\
+  (cn s = CDraining \/ cn s = CClosed -> hs (arrive (cn s)) = HNone /\ late (arrive (cn s)) = true).
+Proof. exact no_accept_after. Qed.
+Print Assumptions C25_no_accept_after.
+
+(* "Stop cancels every handler's context and clients observe a non-OK status for unfinished
+   RPCs": once a Stop call is past closeServerTransportsLocked, the transport is closed, every
+   handler still running has its context cancelled, every client has a final status, and a
+   client holds a handler's status only if that handler returned it (unfinished => error) *)
+Theorem C25_stop_cancels : forall s, greach s ->
+  In (P2 false) (stops s) \/ In (P3 false) (stops s) \/ In (P4 false) (stops s) ->
+  cn s = CClosed /\ forall r, In r (rs s) ->
+  (hs r = HRunning -> cxl r = true) /\ clst r <> CNone /\ (forall st, clst r = CHandler st -> hs r = HRet st).
+Proof. exact stop_cancels. Qed.
+Print Assumptions C25_stop_cancels.
+
+(* WaitForHandlers(true): Stop returns only when no handler is running *)
+Theorem C25_stop_waits_for_handlers : forall s, greach s -> wfhd s = true ->
+  In (P4 false) (stops s) -> no_running (rs s).
+Proof. exact stop_waits_for_handlers. Qed.
+Print Assumptions C25_stop_waits_for_handlers.
 
 (* non-vacuity: N = 1: second acquire blocks, a release hands the unit over, and the
    acceptor rejects two holders with N = 1 *)
 Example C25_witness :
+  run [2; 2; 0] [[1; 0]; [1; 1]; [2; 1; 0]; [3]; [1; 0]; [6; 1]; [2; 0; 5]; [4]] =
+    Some [[1; 0; 10; 0; 0]; [1; 1; 10; 1; 0]; [2; 1; 0; 11; 1; 0]; [3]; [1; 0; 13; 2; 14];
+          [6; 1; 13; 1; 0]; [2; 0; 5; 11; 0; 5; 13; 0; 5; 14; 0; 0]; [4; 15; 0; 0]] /\
+  holds_b [2; 0; 0] [] [[1; 0; 10; 0; 0]; [3; 14; 0; 0]] = false /\
   run [0; 1] [[1]; [1]; [1]; [2]; [2]; [2]] = Some [[1; 1]; [1; 0]; [1; 2]; [2; 1]; [2; 0]; [2; 2]] /\
   holds_b [0; 1] [] [[1; 1]; [1; 1]] = false /\ holds_b [1; 4; 100] [] [[4; 5; 100]] = false.
 Proof. vm_compute. repeat split. Qed.
